@@ -153,7 +153,7 @@ PROPS = {
                exhaustive="every packet-transmission order of 2x2x2, 2x2x3 and 3x1x3 (senders x messages x packets) in both tiers, additionally 3x2x2 and further receiver modes in the thorough tier"),
     ),
     "C12": dict(
-        jobs=lambda tier: [dict(build="os", params={"sndbuf": "4096", "cases": "0" if tier == "quick" else "6000"}, shards=4 if tier == "quick" else 16)],
+        jobs=lambda tier: [dict(build="os", params={"sndbuf": "4096", "cases": "3000" if tier == "quick" else "120000"}, shards=8 if tier == "quick" else 16)],
         meta=M("fault_enumeration",
                "crash-point enumeration: a forked sender process is SIGKILLed immediately before its k-th intercepted system call (socketpair/sendmsg/send/close) of the fatal send, for every k, per message shape, survivor and observer",
                "For each message shape (1..3 packets quick, 1..6 thorough; with and without attachments), with and without a surviving sender handle in the parent, and for each observer (blocking recv, try_recv loop, receiver set, router route; also observers already waiting while the sender dies), the crash index k runs over every system-call boundary of the sending process from 0 to past the last call. The M messages sent before must arrive intact and first; the interrupted message is delivered intact or not as a message (at most one non-Disconnected error); with a survivor no closure is reported before the survivor's messages arrived; closure is reported afterwards; nothing hangs; attachments of an undelivered message are released.",
@@ -183,6 +183,7 @@ PROPS = {
     ),
     "C05": dict(
         jobs=lambda tier: [dict(build=b, params={"cases": "3000" if tier == "quick" else "40000"}, shards=4 if tier == "quick" else 8) for b in ("os", "memfd", "inproc")]
+        + [dict(build=b, params={"sndbuf": "4096", "cases": "1500" if tier == "quick" else "20000"}, shards=2 if tier == "quick" else 8) for b in ("os", "memfd")]
         + ([dict(build=b, params={"cases": "60", "big": "1", "max_exp": "25"}, shards=2) for b in ("os", "memfd")] if tier == "thorough" else []),
         meta=M("exploration",
                "property-based round-trip testing of shared-memory regions (enumerated boundary lengths + generated lengths/contents/clone patterns), receivers in the same and in a forked process",
@@ -255,7 +256,7 @@ PROPS = {
                "cases = (steps of (operation, sender action), typed or bytes channel); non-trivial = a blocking recv after an Empty, or a send/drop during a timed wait of >=5 ms, or a sub-millisecond timeout; distinct = distinct (build, params, canonical JSON)"),
     ),
     "C11": dict(
-        jobs=lambda tier: [dict(build=b, params={"sndbuf": "4096", "cases": "2000" if tier == "quick" else "40000"}, shards=8 if tier == "quick" else 16) for b in ("os", "memfd")],
+        jobs=lambda tier: [dict(build=b, params={"sndbuf": "4096", "cases": "2500" if tier == "quick" else "40000"}, shards=8 if tier == "quick" else 16) for b in ("os", "memfd")],
         meta=M("exploration",
                "stateful property testing over the whole public API (world-model programs interleaved with failure paths, undecoded drops, router routes and start/stop cycles, repeated for amplification) with descriptor/mapping/temp-file snapshots, a close ledger with planted sentinel descriptors, and spawned children reporting inherited descriptors",
                "Generated sequences (<=60 operations quick, <=400 thorough, repeated up to ~10^3 times within an operation budget) create channels, bytes channels, regions, sets, servers and routers, clone, send small and multi-packet messages with mixed attachments, receive (decoding or dropping undecoded), transfer endpoints, connect to missing and stale names, send values whose serialisation fails, send to closed receivers, and drop everything in generated order. At generated moments every free descriptor number is filled with a sentinel (raw-syscall dup of /dev/null) so that a stale or double close is recorded by the interposed close, and an unrelated child (exec of the harness with 'helper fdlist') reports what it inherited. Afterwards /proc/self/fd, the shared-memory lines of /proc/self/maps and the TMPDIR listing must equal the snapshot taken before the sequence; no close may have failed with EBADF or hit a sentinel; the child must have seen only 0/1/2.",
@@ -263,3 +264,27 @@ PROPS = {
                "cases = (operation sequence, repetition count); non-trivial = the sequence has >=20 operations and contains a failing operation, an endpoint transfer, a router or a receiver set; distinct = distinct (build, canonical JSON)"),
     ),
 }
+
+
+# The quick tier is fixed work: the case counts above times QUICK_SCALE (the per-property numbers
+# were tuned at scale 1 when each quick tier ran for a few seconds on 16 cores; at 4 the whole
+# quick suite takes about five minutes including the builds).
+import os  # noqa: E402
+
+QUICK_SCALE = int(os.environ.get("IPCV_QUICK_SCALE", "4"))
+
+
+def _scaled(fn):
+    def jobs(tier):
+        js = fn(tier)
+        if tier == "quick" and QUICK_SCALE != 1:
+            for j in js:
+                p = j.get("params", {})
+                if "fuzz" not in j and p.get("cases", "0").isdigit() and int(p["cases"]) > 0:
+                    j["params"] = dict(p, cases=str(int(p["cases"]) * QUICK_SCALE))
+        return js
+    return jobs
+
+
+for _v in PROPS.values():
+    _v["jobs"] = _scaled(_v["jobs"])
